@@ -170,6 +170,20 @@ namespace
     return std::make_pair(ok, v);
   }
 
+  // Converts the result of a command into an exit status.  Output
+  // written to std::cout may still be buffered, and a failure to
+  // write it must not go unreported: flush, then check the stream.
+  int exit_status_for(bool command_ok)
+  {
+    std::cout.flush();
+    if (!std::cout)
+      {
+	std::cerr << "error: failed to write to standard output\n";
+	return 1;
+      }
+    return command_ok ? 0 : 1;
+  }
+
 std::unique_ptr<std::map<std::string, std::string>> option_help;
 
 std::unique_ptr<std::map<std::string, std::string>> make_option_help()
@@ -304,7 +318,7 @@ int main (int argc, char *argv[])
 	case OPT_HELP:
 	  {
 	    DFS::CommandHelp help;
-	    return help.invoke(storage, ctx, extra_args) ? 0 : 1;
+	    return exit_status_for(help.invoke(storage, ctx, extra_args));
 	  }
 	}
     }
@@ -330,7 +344,7 @@ int main (int argc, char *argv[])
 	{
 	  storage.show_drive_configuration(std::cerr);
 	}
-      return instance->invoke(storage, ctx, extra_args) ? 0 : 1;
+      return exit_status_for(instance->invoke(storage, ctx, extra_args));
     }
   catch (std::exception& e)
     {
